@@ -150,7 +150,7 @@ def run(ctx):
     # ---- A
     vlib.proof_stage(ctx, PROP_FILE, ["classify"], extra_targets=["Corr/C16.vo"])
     # ---- builds
-    ok, log = vlib.build_harness()
+    ok, log = vlib.build_harness("c16")
     if not ok:
         ctx.obligation_broken("build", "harness", log)
         return ctx.finish()
@@ -252,7 +252,7 @@ def run(ctx):
 
 def replay(ctx, path):
     r = json.load(open(path))
-    ok, log = vlib.build_harness()
+    ok, log = vlib.build_harness("c16")
     for f in r.get("failures", []):
         c = f["case"]
         name = c["name"].encode() if "name" in c else bytes.fromhex(c["name_hex"])
